@@ -116,11 +116,14 @@ Proof.
     destruct (N.eq_dec c2 58) as [->|N2].
     2: { destruct c2 as [|p2]; [discriminate|].
          repeat (destruct p2 as [p2|p2|]; try discriminate; try (exfalso; apply N2; reflexivity)). }
-    cbv iota. cbv zeta.
+    set (n8 := 8%nat). cbv iota. cbv zeta. subst n8.
     destruct (read_groups (N.to_nat (8 - (llen head + 1))) 0 (8 - (llen head + 1)) [] s2) as [[tail tv] s3] eqn:Et.
-    destruct (read_groups_spec _ 0 _ [] s2 tail tv s3 ltac:(lia) (Forall_nil _) Et) as [Ht Htl]. cbn [length] in Htl.
-    intro H; inversion H; subst. unfold llen in *. split.
-    + rewrite !app_length, zeros_length. lia.
+    assert (Hk : 0 + N.of_nat (N.to_nat (8 - (llen head + 1))) <= 8 - (llen head + 1)) by (rewrite N2Nat.id; lia).
+    destruct (read_groups_spec (N.to_nat (8 - (llen head + 1))) 0 (8 - (llen head + 1)) [] s2 tail tv s3 Hk (Forall_nil _) Et) as [Ht Htl].
+    cbn [length] in Htl.
+    intro H. injection H as <- <-. unfold llen in *. split.
+    + rewrite !app_length, zeros_length.
+      destruct (length head) as [|[|[|[|[|[|[|[|n]]]]]]]]; cbv iota; cbn [N.of_nat] in *; lia.
     + apply Forall_app. split; [exact Hh|]. apply Forall_app. split; [apply zeros_small|exact Ht].
 Qed.
 
